@@ -13,6 +13,8 @@
 //	    argument form: var ($a->m(..)), prop ($o->a->m(..)), elem ($w[0]->m(..)), lit (([..])->m(..)),
 //	    spread ($a->m(...[..])), named ($a->m(args.., name: v, ..): "named" lists {"n":name,"v":E} in the order written;
 //	    the answer carries "pn": the parameter names and kinds of the real method object);
+//	    with "alias":"to"|"from"|"prop"|"param" (forms var and chain) a COPY of the receiver is made before the
+//	    call ($alias = $a / $a = $alias / $h->a = $a / by-value parameter) and reported as "alias" afterwards;
 //	    chain ($a->m(..)->m2(args2..): "m2","args2","cb2" give the second call; the receiver $a is observed)
 //
 // E = null | true | false | {"i":"5"} | {"s":"x"} | [E...] | {"f":"<float64 bits>"} | {"o":"<n>"} (an object, one per n)
@@ -30,6 +32,7 @@ import (
 	"sort"
 	"strconv"
 	"strings"
+	"unicode"
 	"unicode/utf8"
 
 	"verif/harness/vrun"
@@ -57,6 +60,7 @@ type Case struct {
 	M2    string            `json:"m2"`
 	Args2 []json.RawMessage `json:"args2"`
 	Cb2   string            `json:"cb2"`
+	Alias string            `json:"alias"`
 	Named []NamedArg        `json:"named"`
 }
 
@@ -75,6 +79,8 @@ type Obs struct {
 	Atoms map[string]string `json:"atoms,omitempty"`
 	Src   string            `json:"src,omitempty"`
 	Pn    [][2]string       `json:"pn,omitempty"`
+	Tbl   [][2]string       `json:"tbl,omitempty"`
+	Alias interface{}       `json:"alias,omitempty"`
 }
 
 var (
@@ -149,8 +155,8 @@ var (
 	svm     interface {
 		CreateContext([]data.Variable) data.Context
 	}
-	emitted  [][2]data.Value
-	caughtAt []data.Value
+	emitted  [][3]data.Value
+	caughtAt [][2]data.Value
 )
 
 type emitFn struct{}
@@ -158,30 +164,32 @@ type emitFn struct{}
 func (emitFn) Call(c data.Context) (data.GetValue, data.Control) {
 	r, _ := c.GetIndexValue(0)
 	a, _ := c.GetIndexValue(1)
-	emitted = append(emitted, [2]data.Value{r, a})
+	al, _ := c.GetIndexValue(2)
+	emitted = append(emitted, [3]data.Value{r, a, al})
 	return nil, nil
 }
 func (emitFn) GetName() string { return "c15_emit" }
 func (emitFn) GetParams() []data.GetValue {
-	return []data.GetValue{node.NewParameter(nil, "r", 0, nil, nil), node.NewParameter(nil, "a", 1, nil, nil)}
+	return []data.GetValue{node.NewParameter(nil, "r", 0, nil, nil), node.NewParameter(nil, "a", 1, nil, nil), node.NewParameter(nil, "alias", 2, nil, nil)}
 }
 func (emitFn) GetVariables() []data.Variable {
-	return []data.Variable{node.NewVariable(nil, "r", 0, data.NewBaseType("mixed")), node.NewVariable(nil, "a", 1, data.NewBaseType("mixed"))}
+	return []data.Variable{node.NewVariable(nil, "r", 0, data.NewBaseType("mixed")), node.NewVariable(nil, "a", 1, data.NewBaseType("mixed")), node.NewVariable(nil, "alias", 2, data.NewBaseType("mixed"))}
 }
 
 type caughtFn struct{}
 
 func (caughtFn) Call(c data.Context) (data.GetValue, data.Control) {
 	a, _ := c.GetIndexValue(0)
-	caughtAt = append(caughtAt, a)
+	al, _ := c.GetIndexValue(1)
+	caughtAt = append(caughtAt, [2]data.Value{a, al})
 	return nil, nil
 }
 func (caughtFn) GetName() string { return "c15_caught" }
 func (caughtFn) GetParams() []data.GetValue {
-	return []data.GetValue{node.NewParameter(nil, "a", 0, nil, nil)}
+	return []data.GetValue{node.NewParameter(nil, "a", 0, nil, nil), node.NewParameter(nil, "alias", 1, nil, nil)}
 }
 func (caughtFn) GetVariables() []data.Variable {
-	return []data.Variable{node.NewVariable(nil, "a", 0, data.NewBaseType("mixed"))}
+	return []data.Variable{node.NewVariable(nil, "a", 0, data.NewBaseType("mixed")), node.NewVariable(nil, "alias", 1, data.NewBaseType("mixed"))}
 }
 
 // literal source text of an element (null, bools, ints, strings without quote characters, arrays)
@@ -300,6 +308,22 @@ func runScript(c Case) (o Obs) {
 	if c.Form == "lit" {
 		// a literal receiver: no variable holds it, only the result is observed (after = the literal)
 		src = "$a = " + recvLit + ";\ntry { $r = (" + recvLit + ")->" + c.M + "(" + strings.Join(list, ", ") + "); c15_emit($r, $a); } catch (\\Throwable $e) { c15_caught($a); }\n"
+	} else if c.Alias != "" {
+		// an ALIAS of the receiver made before the call (forms var / chain): it must keep the
+		// receiver's contents from before the call
+		switch c.Alias {
+		case "to": // the receiver copied to another variable
+			src = "$a = " + recvLit + "; $alias = $a;\ntry { $r = " + call + "; c15_emit($r, $a, $alias); } catch (\\Throwable $e) { c15_caught($a, $alias); }\n"
+		case "from": // the receiver itself is the copy
+			src = "$alias = " + recvLit + "; $a = $alias;\ntry { $r = " + call + "; c15_emit($r, $a, $alias); } catch (\\Throwable $e) { c15_caught($a, $alias); }\n"
+		case "prop": // the receiver copied into an object property
+			src = "$a = " + recvLit + "; $h = new C15H(); $h->a = $a;\ntry { $r = " + call + "; c15_emit($r, $a, $h->a); } catch (\\Throwable $e) { c15_caught($a, $h->a); }\n"
+		case "param": // the receiver is a by-value parameter: the caller's variable is the alias
+			src = "$alias = " + recvLit + ";\n$f = function($a) { $r = " + call + "; return [$r, $a]; };\n" +
+				"try { $p = $f($alias); c15_emit($p[0], $p[1], $alias); } catch (\\Throwable $e) { c15_caught($alias, $alias); }\n"
+		default:
+			return Obs{Out: "panic", Msg: "bad alias kind " + c.Alias}
+		}
 	} else {
 		src = pre + "\ntry { $r = " + call + "; c15_emit($r, " + recv + "); } catch (\\Throwable $e) { c15_caught(" + recv + "); }\n"
 	}
@@ -335,12 +359,20 @@ func runScript(c Case) (o Obs) {
 		}
 	}
 	if len(caughtAt) == 1 && len(emitted) == 0 {
-		return Obs{Out: "throw", After: enc(caughtAt[0]), Src: src, Pn: pn}
+		o := Obs{Out: "throw", After: enc(caughtAt[0][0]), Src: src, Pn: pn}
+		if c.Alias != "" {
+			o.Alias = enc(caughtAt[0][1])
+		}
+		return o
 	}
 	if len(emitted) != 1 || len(caughtAt) != 0 {
 		return Obs{Out: "panic", Msg: fmt.Sprintf("emitted %d caught %d", len(emitted), len(caughtAt)), Src: src}
 	}
-	return Obs{Out: "val", Res: enc(emitted[0][0]), After: enc(emitted[0][1]), Src: src, Pn: pn}
+	o = Obs{Out: "val", Res: enc(emitted[0][0]), After: enc(emitted[0][1]), Src: src, Pn: pn}
+	if c.Alias != "" {
+		o.Alias = enc(emitted[0][2])
+	}
+	return o
 }
 
 func joinRaw(l []json.RawMessage) string {
@@ -588,6 +620,22 @@ func runCase(c Case) (o Obs) {
 		g, ctl := node.NewObjectMethod(from, recv, c.M, args).GetValue(ctx)
 		o := finish(nil, g, ctl)
 		o.After = map[string]string{"s": recv.(*data.StringValue).Value}
+		if c.M == "toUpperCase" || c.M == "toLowerCase" {
+			// reference: the image of every non-ASCII code point of the receiver under Go's
+			// unicode.ToUpper / ToLower, computed here without origami code
+			seen := map[rune]bool{}
+			for _, r := range c.SRecv {
+				if r < 128 || seen[r] {
+					continue
+				}
+				seen[r] = true
+				img := unicode.ToLower(r)
+				if c.M == "toUpperCase" {
+					img = unicode.ToUpper(r)
+				}
+				o.Tbl = append(o.Tbl, [2]string{string(r), string(img)})
+			}
+		}
 		return o
 	}
 	return Obs{Out: "panic", Msg: "bad case kind"}
